@@ -394,7 +394,9 @@ def op_strategy():
             v = draw(gen.valid(ver))
             if kind == "rh-ok":
                 base = scorecheck.as_floats(scorecheck.expected_scores(ver, v))[0]
-                return kind, ["rh", ver, "%.1f/%s" % (base, v)]
+                # the matching score in the canonical and in other accepted spellings
+                fmt = draw(st.sampled_from(("%.1f", "%.1f", "%.2f", "+%.1f", " %.1f", "%.1f ", "0%.1f", "%.1fe0", "%.3f")))
+                return kind, ["rh", ver, (fmt % base) + "/" + v]
             if kind == "rh-mismatch":
                 return kind, ["rh", ver, "%.1f/%s" % (draw(st.integers(0, 100)) / 10.0, v)]
             return kind, ["rh", ver, draw(st.sampled_from(("x/", "", "/", "7;5/"))) + v]
